@@ -289,6 +289,13 @@ pub fn run(run: &mut Run) {
             configs.push(Config { linearizable: true, programs: vec![a.clone(), b.clone()], bound: b1, max_exec: 300_000, budget: Duration::from_secs(if quick { 10 } else { 300 }) });
         }
     }
+    // the same on a key that does not exist yet (never set): creation is the racy step
+    let absent = |t: usize| -> Vec<String> { vec![format!("set-safe j 0 a{}", t), format!("set j {}", 20 + t), "increment j".to_string(), format!("set-safe j 5 b{}", t)] };
+    for a in absent(0).iter() {
+        for b in absent(1).iter() {
+            configs.push(Config { linearizable: true, programs: vec![vec![a.clone()], vec![b.clone()]], bound: b1, max_exec: 300_000, budget: Duration::from_secs(if quick { 10 } else { 300 }) });
+        }
+    }
     let n1 = configs.len();
     // (b) 2 clients x up to 2 commands, preemption bound
     let b2 = if quick { 2 } else { 3 };
